@@ -44,6 +44,16 @@ func (a *LenderAgent) Step(s *Sim) {
 			amt = sdkmath.NewInt(int64(1 + r.IntN(5))) // dust
 		}
 		s.SendTx(u, "lender/bond", &stablestaketypes.MsgBond{Creator: u.Addr.String(), Amount: amt})
+		if r.Float64() < 0.15 {
+			// deposit then immediately withdraw the shares received (same block, right behind the bond)
+			rate := s.N0.App.StablestakeKeeper.GetRedemptionRate(s.Ctx())
+			if rate.IsPositive() {
+				sh := amt.ToLegacyDec().Quo(rate).RoundInt()
+				if sh.IsPositive() {
+					s.SendTx(u, "lender/unbond_round_trip", &stablestaketypes.MsgUnbond{Creator: u.Addr.String(), Amount: sh})
+				}
+			}
+		}
 	}
 }
 
